@@ -127,6 +127,7 @@ pub fn generate(rng: &mut Rng, property: &str, deep: bool) -> BScn {
         } else {
             None
         },
+        extra_spawned_late: rng.chance(0.3),
         orphan: if rng.chance(0.12) {
             Some((rng.usize_below(n_tls), rng.chance(0.5)))
         } else {
@@ -197,6 +198,19 @@ pub fn generate(rng: &mut Rng, property: &str, deep: bool) -> BScn {
     let mut ended = false;
     let mut just_ended = false;
     let mut frames = Vec::new();
+    // late spawn / despawn of the extra entity, chain removed / re-inserted at run time
+    let extra_spawn_at = if cfg.extra_entity.is_some() && cfg.extra_spawned_late {
+        Some(rng.usize_below(n_frames.min(16)))
+    } else {
+        None
+    };
+    let extra_despawn_at = if cfg.extra_entity.is_some() && rng.chance(0.25) {
+        Some(extra_spawn_at.unwrap_or(0) + 1 + rng.usize_below(24))
+    } else {
+        None
+    };
+    let p_chain_toggle = if cfg.selector && cfg.chain.is_some() && property == "C19" { on(rng, 0.05) } else { 0.0 };
+    let mut chain_present = true;
     let insert_selector_at = if cfg.selector_inserted_later {
         Some(rng.usize_below(n_frames.min(12)))
     } else {
@@ -210,6 +224,16 @@ pub fn generate(rng: &mut Rng, property: &str, deep: bool) -> BScn {
     for frame_no in 0..n_frames {
         let mut ops = Vec::new();
         let mut fault: &'static str = "none";
+        if extra_spawn_at == Some(frame_no) {
+            ops.push(BOp::SpawnExtra);
+        }
+        if extra_despawn_at == Some(frame_no) {
+            ops.push(BOp::DespawnExtra);
+        }
+        if selector_present && rng.chance(p_chain_toggle) {
+            chain_present = !chain_present;
+            ops.push(if chain_present { BOp::InsertChain } else { BOp::RemoveChain });
+        }
         if insert_selector_at == Some(frame_no) {
             ops.push(BOp::InsertSelector);
             selector_present = true;
